@@ -181,12 +181,18 @@ fn populations(rng: &mut SplitMix64, n_random: usize) -> Vec<Vec<T>> {
         }).collect();
         out.push(mk_pop(&vals));
     }
+    // a few populations well above the sizes at which sorting / sampling routines switch algorithm (insertion sort
+    // below ~20 elements, chunked or partial selection above), with many ties among them
+    for &len in &[21usize, 40, 64, 130] {
+        let vals: Vec<f64> = (0..len).map(|_| if rng.chance(0.5) { *rng.pick(&grid[..5]) } else { (rng.below(40) as f64) / 4.0 - 3.0 }).collect();
+        out.push(mk_pop(&vals));
+    }
     out
 }
 
 fn main() {
     let rep = Reporter::from_args("C11");
-    rep.rule("every selection component executed - directly or from inside one or two scopes opened over the state - on prepared two-population stacks of uniquely tagged individuals (sizes 0..8, duplicate/tied/negative/zero/infinite objective values) x requested counts {0,1,size-1,size,size+3} x seeds: stack below and source untouched (also after an error), exactly one population pushed, members are exact copies, count/distinctness as requested, documented unusable inputs give Err (never a panic); helper laws (proportional_weights antitone and >= offset, objective_bounds, reverse_rank monotone); selection pressure: per-pair frequency comparison over N draws with a Hoeffding margin, tournament over the whole population returns a best individual; DE selections: length and block layout. distinct_nontrivial = distinct (operator, parameters, population) cells");
+    rep.rule("every selection component executed - directly or from inside one or two scopes opened over the state - on prepared two-population stacks of uniquely tagged individuals (sizes 0..8 and four of 21..130, duplicate/tied/negative/zero/infinite objective values) x requested counts {0,1,size-1,size,size+3} x seeds: stack below and source untouched (also after an error), exactly one population pushed, members are exact copies, count/distinctness as requested, documented unusable inputs give Err (never a panic); helper laws (proportional_weights antitone and >= offset, objective_bounds, reverse_rank monotone); selection pressure: per-pair frequency comparison over N draws with a Hoeffding margin, tournament over the whole population returns a best individual; DE selections: length and block layout. distinct_nontrivial = distinct (operator, parameters, population) cells");
     rep.assume("inputs that are neither valid nor documented as errors (e.g. FullyRandom on an empty population, tournament size 0) are not judged; frequency margin 2*sqrt(ln(2/1e-10)/(2N))");
     let mut rng = SplitMix64::new(rep.seed).fork(0xC11);
     let pops = populations(&mut rng, rep.tier.pick(300, 8000));
